@@ -100,6 +100,11 @@ def _clause_templates():
 TEMPLATES += _clause_templates()
 
 
+# (python value handed to execute_steps, the literal that denotes it in the statement text)
+VALUE_KINDS = [(True, 'TRUE'), (False, 'FALSE'), (None, 'NULL'), (1.5, '1.5'), ('x', "'x'"), ("it's", "'it''s'"), (-3, '-3'), (10 ** 20, '100000000000000000000'),
+               (0, '0'), ('', "''"), (1, '1'), ('1', "'1'")]
+
+
 def instantiate(tpl, nslots, chosen):
     """-> (text with ?, text with inline markers, markers in text order)"""
     vals_q, vals_i = [], []
@@ -178,6 +183,12 @@ class CHECK(Check):
             if self.tier == 'thorough' and n > 3:
                 for chosen in itertools.combinations(range(n), n):
                     out.append(('bind', ti, chosen))
+        # values of every kind the placeholders can carry (booleans, NULL, floats, strings with a quote, negative and large integers):
+        # bound value vs. the same literal written inline, one slot at a time (and all slots at once)
+        for ti, (kind, tpl, labels) in enumerate(TEMPLATES):
+            for slot_i in range(len(labels)):
+                out.append(('kinds', ti, (slot_i,)))
+            out.append(('kinds', ti, tuple(range(len(labels)))))
         for ti in range(len(TEMPLATES)):
             out.append(('history', ti, ()))
         # two statements on one planner, the step generator of the first consumed only after the second was prepared and executed
@@ -291,7 +302,57 @@ class CHECK(Check):
                           f'prepare {q1!r}; g = execute_steps({m1}); prepare and execute {q2!r}; consuming g yields {steps1}\n    instead of the plan of {i1!r}')
         return res
 
+    def run_kinds(self, res, ti, slots):
+        kind, tpl, labels = TEMPLATES[ti]
+        n = len(labels)
+        res.key(('kinds', ti, slots))
+        for r in range(len(VALUE_KINDS)):
+            # slot j of the chosen ones gets kind (r + j) mod K, so that every kind meets every slot and kinds are mixed in one statement
+            vals = [VALUE_KINDS[(r + j) % len(VALUE_KINDS)] for j in range(len(slots))]
+            qparts, iparts = [], []
+            it = iter(vals)
+            bound = []
+            for s_ in range(n):
+                if s_ in slots:
+                    v, lit = next(it)
+                    bound.append(v)
+                    qparts.append('?')
+                    iparts.append(lit)
+                else:
+                    qparts.append(str(900 + s_))
+                    iparts.append(str(900 + s_))
+            qtext, itext = tpl.format(*qparts), tpl.format(*iparts)
+            qt, rt = parsing.outcome(qtext, 'mindsdb'), parsing.outcome(itext, 'mindsdb')
+            if qt.kind != 'ok' or rt.kind != 'ok':
+                res.count('kinds_text_not_parsed')
+                continue
+            if len(putils.get_query_params(copy.deepcopy(qt.value))) != len(bound):
+                continue        # placeholders not found: reported by the binding cases
+            try:
+                filled = putils.fill_query_params(copy.deepcopy(qt.value), list(bound))
+            except Exception as e:
+                res.violation(f'bind-value-kind-raises|{exc_sig(e)}', f'{qtext!r} with {bound!r}: {e!r}')
+                continue
+            res.count('value_kind_bindings')
+            if reflect.fingerprint(filled) != reflect.fingerprint(rt.value):
+                bad = next((type(v).__name__ for (v, lit), _ in zip(vals, slots)), '?')
+                # which kind: bind each alone
+                res.violation(f'bound-value-differs-from-inline-literal|{"+".join(sorted({type(v).__name__ for v, _ in vals}))}',
+                              f'{qtext!r} with {bound!r} gives {str(filled)!r}; the inline statement is {str(rt.value)!r}')
+                continue
+            rq = drive(qtext, bound)
+            if rq.get('stage') == 'executed':
+                try:
+                    ref_fp = plan_fp(plan_query(rt.value, **copy.deepcopy(CATALOG)).steps)
+                except Exception:
+                    continue
+                if plan_fp(rq['steps']) != ref_fp:
+                    res.violation(f'executed-plan-differs|value-kinds|{kind}', f'{qtext!r} executed with {bound!r} plans {rq["steps"]}, the inline statement {itext!r} plans differently')
+        return res
+
     def run(self, case):
+        if case[0] == 'kinds':
+            return self.run_kinds(Result(), case[1], case[2])
         if case[0] == 'deferred':
             return self.run_deferred(Result(), case[1], case[2])
         res = Result()
@@ -408,7 +469,7 @@ class CHECK(Check):
         return {'exhaustive': True, 'states': max(st, 1), 'transitions': max(tr, 1), 'traces_validated_against_impl': agg['counters'].get('history_transitions_executed', 0),
                 'templates': len(TEMPLATES),
                 'rule': 'every subset of <= 3 literal slots of 34 statement templates as placeholders (binding oracle, direct and through prepare/execute) + '
-                        'all call histories of depth 3 (thorough 4) over 6 operations per template; states/transitions = distinct abstract (operation, outcome) '
+                        'every slot bound to every kind of value (booleans, NULL, float, strings, negative / large integers) and compared with the inline literal; all call histories of depth 3 (thorough 4) over 6 operations per template; states/transitions = distinct abstract (operation, outcome) '
                         'states and transitions of the history graph; distinct_nontrivial = distinct (template, placeholder subset)'}
 
     def describe_case(self, case):
@@ -416,5 +477,7 @@ class CHECK(Check):
             return {'mode': 'deferred', 'first': TEMPLATES[case[1]][1], 'second': TEMPLATES[case[2]][1]}
         mode, ti, chosen = case
         kind, tpl, labels = TEMPLATES[ti]
+        if mode == 'kinds':
+            return {'mode': mode, 'template': tpl, 'slots': list(chosen)}
         q, i, m = instantiate(tpl, len(labels), set(chosen) if mode == 'bind' else set(range(min(2, len(labels)))))
         return {'mode': mode, 'text': q, 'values': m}
